@@ -35,9 +35,9 @@ EPS64 = float(np.finfo(np.float64).eps)
 
 def plan(tier, seed):
     n = 16 if tier == "quick" else 64
-    per = 10 if tier == "quick" else 40
-    return [{"shard": i, "n_shards": n, "n_random": per, "n_rel": 3 if tier == "quick" else 10,
-             "max_n": 5 if tier == "quick" else 8, "n_mp": 1 if tier == "quick" else 3} for i in range(n)]
+    per = 10 if tier == "quick" else 150
+    return [{"shard": i, "n_shards": n, "n_random": per, "n_rel": 3 if tier == "quick" else 40,
+             "max_n": 5 if tier == "quick" else 9, "n_mp": 1 if tier == "quick" else 6} for i in range(n)]
 
 
 def cfg_of(obj):
